@@ -191,14 +191,41 @@ def gen_history(seed):
     for _ in range(n):
         c = r.pick(base) if r.chance(2, 3) else gen_call(r)
         hist.append(c)
+    # callers that keep one mutable context object and change it in place between calls
+    pool = []
+    if r.chance(1, 3):
+        for _ in range(1 + r.below(3)):
+            o = data(r, 2)
+            if not isinstance(o, (dict, list)):
+                o = {"a": o, "temp": 20}
+            pool.append(o)
+        for c in hist:
+            if c["entry"] == "apply" and c.get("data_given") and r.chance(1, 2):
+                c2 = dict(c)
+                c2["data_ref"] = r.below(len(pool))
+                muts = []
+                for _ in range(r.below(3)):
+                    k = r.below(4)
+                    if k == 0:
+                        muts.append(["set", r.pick(KEYS + ["temp"]), atom(r)])
+                    elif k == 1:
+                        muts.append(["append", atom(r)])
+                    elif k == 2:
+                        muts.append(["pop"])
+                    else:
+                        muts.append(["set", r.pick(["a", "temp", "x"]), r.pick(NUMS[:8])])
+                c2["mutate"] = muts
+                hist[hist.index(c)] = c2
     # leak shapes: same rule with other data right after; an error right before a success
     for i in range(len(hist) - 1):
         if r.chance(1, 6) and hist[i]["entry"] == "apply":
             twin = dict(hist[i])
             twin["data"] = data(r, 2)
             twin["data_given"] = True
+            twin.pop("data_ref", None)
+            twin.pop("mutate", None)
             hist[i + 1] = twin
-    return hist
+    return {"calls": hist, "pool": pool}
 
 
 # ---------------------------------------------------------------------------------------------
@@ -210,7 +237,43 @@ def _fix(v):
     return v
 
 
-def perform(mod, call):
+def mutate(obj, muts):
+    for m in muts or []:
+        try:
+            if m[0] == "set" and isinstance(obj, dict):
+                obj[m[1]] = m[2]
+            elif m[0] == "set" and isinstance(obj, list) and obj:
+                obj[0] = m[2]
+            elif m[0] == "append" and isinstance(obj, list):
+                obj.append(m[1])
+            elif m[0] == "append" and isinstance(obj, dict):
+                obj["appended"] = m[1]
+            elif m[0] == "pop" and obj:
+                if isinstance(obj, list):
+                    obj.pop()
+                else:
+                    obj.pop(sorted(obj.keys(), key=str)[0])
+        except Exception:  # noqa
+            pass
+
+
+def concrete(hist):
+    """The same calls with every shared object replaced by a private copy of its content at that moment."""
+    import copy
+    pool = copy.deepcopy(hist["pool"])
+    out = []
+    for c in hist["calls"]:
+        if "data_ref" in c:
+            mutate(pool[c["data_ref"]], c.get("mutate"))
+            c2 = {k: v for k, v in c.items() if k not in ("data_ref", "mutate")}
+            c2["data"] = copy.deepcopy(pool[c["data_ref"]])
+            out.append(c2)
+        else:
+            out.append(c)
+    return out
+
+
+def perform(mod, call, pool=None):
     """Returns (kind, payload): ('ok', json text of the result) or ('exc', 'TypeName: message')."""
     kw = {}
     try:
@@ -221,7 +284,11 @@ def perform(mod, call):
                 kw["serializer"] = ser
             if de is not None:
                 kw["deserializer"] = de
-            if call["data_given"]:
+            if "data_ref" in call and pool is not None:
+                obj = pool[call["data_ref"]]
+                mutate(obj, call.get("mutate"))
+                res = mod.apply(call["rule"], obj, **kw)
+            elif call["data_given"]:
                 res = mod.apply(call["rule"], call["data"], **kw)
             else:
                 res = mod.apply(call["rule"], **kw)
@@ -318,10 +385,12 @@ class Oracle:
 def run_history(mod, hist):
     """Execute the whole history in one forked child; per call (kind, payload, captured-output-delta)."""
     def body():
+        import copy
         outs = []
         pos = 0
-        for c in hist:
-            k, p = perform(mod, c)
+        pool = copy.deepcopy(hist["pool"])
+        for c in hist["calls"]:
+            k, p = perform(mod, c, pool)
             sys.stdout.flush()
             end = os.lseek(1, 0, os.SEEK_CUR)
             os.lseek(1, pos, os.SEEK_SET)
@@ -334,8 +403,9 @@ def run_history(mod, hist):
     return in_child(body)
 
 
-def judge(hist, status, outs, oracle):
+def judge(hist_full, status, outs, oracle):
     viol = []
+    hist = concrete(hist_full)
     if outs is None or status != 0:
         viol.append({"property": "C01", "class": "python-interpreter-died", "index": -1, "expected": "every call returns or raises", "got": "child status %d after a history of %d calls" % (status, len(hist)), "needs": "history-or-schedule"})
         viol.append({"property": "C17", "class": "python-interpreter-died", "index": -1, "expected": "every call returns or raises", "got": "child status %d" % status, "needs": "history-or-schedule"})
@@ -367,7 +437,8 @@ def shrink(mod, hist, target, oracle, budget=120):
                 return v
         return None
 
-    best, bv = list(hist), target
+    best, bv = list(hist["calls"]), target
+    pool = hist["pool"]
     n = 0
     chunk = max(1, len(best) // 2)
     while chunk >= 1 and n < budget:
@@ -378,7 +449,7 @@ def shrink(mod, hist, target, oracle, budget=120):
             cand = best[:lo] + best[i:]
             if cand:
                 n += 1
-                v = fails(cand)
+                v = fails({"calls": cand, "pool": pool})
                 if v:
                     best, bv, changed = cand, v, True
             i = lo
@@ -387,7 +458,7 @@ def shrink(mod, hist, target, oracle, budget=120):
         chunk = max(1, chunk // 2) if chunk > 1 else (1 if changed else 0)
         if chunk == 0:
             break
-    return best, bv, n
+    return {"calls": best, "pool": pool}, bv, n
 
 
 def main():
@@ -400,6 +471,8 @@ def main():
     if "--replay" in args:
         doc = json.load(open(args["--replay"]))
         hist = doc["history"]
+        if isinstance(hist, list):
+            hist = {"calls": hist, "pool": []}
         st, outs, _ = run_history(mod, hist)
         vs = judge(hist, st, outs, oracle)
         t = doc.get("violation") or {}
@@ -433,14 +506,14 @@ def main():
                 det_mismatch += 1
         vs = judge(hist, st, outs, oracle)
         runs += 1
-        calls += len(hist)
+        calls += len(hist["calls"])
         if outs:
             for o in outs:
                 kk = o[0] if o[0] == "ok" else o[1].split(":")[0]
                 kinds[kk] = kinds.get(kk, 0) + 1
             hashes.append(fnv(json.dumps(outs)))
         if len(samples) < 2:
-            samples.append({"history_len": len(hist), "first_calls": hist[:3]})
+            samples.append({"history_len": len(hist["calls"]), "shared_mutable_objects": len(hist["pool"]), "first_calls": hist["calls"][:3]})
         for v in vs:
             sig = "%s/%s/%s" % (v["property"], v["class"], key_of(v.get("call", {}))[:200])
             if sig in seen:
@@ -451,7 +524,7 @@ def main():
             json.dump({"engine": "e4", "property": v2["property"], "violation": v2, "history": h2, "verif_seed": seed, "run_index": i, "shrink_executions": execs}, open(path, "w"), indent=1)
             violations.append({"property": v2["property"], "class": v2["class"], "needs": v2.get("needs"), "replay": path,
                                "signature": "%s/%s/%016x" % (v2["property"], v2["class"], fnv(key_of(v2.get("call", {})))),
-                               "summary": "history of %d call(s), call #%s %s -> expected %s got %s" % (len(h2), v2.get("index"), json.dumps(v2.get("call"))[:300], v2["expected"][:200], v2["got"][:200])})
+                               "summary": "history of %d call(s), call #%s %s -> expected %s got %s" % (len(h2["calls"]), v2.get("index"), json.dumps(v2.get("call"))[:300], v2["expected"][:200], v2["got"][:200])})
         i += workers
     json.dump({"engine": "e4", "worker": worker, "runs": runs, "sums": {"calls": calls, "isolation_forks": oracle.forks}, "outcomes": kinds,
                "determinism": {"checked": det_checked, "mismatches": det_mismatch}, "violations": violations, "samples": samples,
